@@ -135,6 +135,9 @@ protected:
     bool has_tracker() const {
         return tracker_ != nullptr;
     }
+    const Tracker<T> *tracker() const {
+        return tracker_;
+    }
 
     void tracker_removed() {
         tracker_ = nullptr;
